@@ -2,6 +2,7 @@
 """C11 MDL / MRV round trip -- code books, role order, record-loop discipline."""
 from ..r_mdl import rule_record_loop, rule_v2000_books, rule_rxn_roles, rule_mrv_attributes
 from ..r_readers import rule_raise_family, MDL
+from ..r_reaction import rule_role_zip
 
 LEVEL = 'other'
 EXEMPT = {
@@ -28,3 +29,4 @@ def run(ck, repo):
     rule_v2000_books(ck, repo, 'C11.D1-codebooks')
     rule_rxn_roles(ck, repo, 'C11.D1-reaction-roles')
     rule_mrv_attributes(ck, repo, 'C11.D1-mrv-attributes')
+    rule_role_zip(ck, repo, 'C11.D1-role-pairing', lambda f: f.module.name in ('chython.files.RDFrw', 'chython.files.MRVrw'), floor=3)
